@@ -4,7 +4,7 @@ from prop_common import *
 import msref, refserver, corr_client
 
 RULE = ("call histories over the public API against the reference server: before connect, after a failed connect / failed authentication, "
-        "after success, re-connect after success; connect(starttls=True) × server behaviour at each handshake step (OK / NO / BYE / "
+        "after success, re-connect after success (with and without STARTTLS on either connection, after logout / a command / a dropped connection); connect(starttls=True) × server behaviour at each handshake step (OK / NO / BYE / "
         "silence), handshake failure, STARTTLS not announced, differing pre-/post-TLS SASL lists, plaintext injected behind the STARTTLS "
         "reply; the write log (channel-tagged) is checked by the oracle; each step is replayed on the Lean model; statically (kernel-"
         "checked on the regenerated method table): every Client method sending a script verb carries @authentication_required; "
@@ -115,6 +115,43 @@ def run(ctx):
             viol.append({"history": "starttls fault=%s tlsok=%s cap=%s post=%r" % (fault, tlsok, cap, post), "what": p})
         if len(samples) < 2:
             samples.append({"history": "connect(starttls=True) fault=%s tlsok=%s" % (fault, tlsok), "writes": [(t, b[:30].decode("latin-1")) for t, b in s.wire.writes]})
+
+    # 2b. the same Client object used for a second connection: nothing of the first one (TLS state, capabilities, authentication)
+    #     may carry over — the second connection has its own STARTTLS → handshake → AUTHENTICATE sequence
+    for between in ("nothing", "logout", "op", "failed-op"):
+        for first_tls in (True, False):
+            for second_tls in (True, False):
+                s = msref.Session()
+                reqs, outs = ["c op=new"], ["ok"]
+                srv1 = refserver.RefServer(r, starttls=True, sasl=b"PLAIN", post_tls_sasl=b"PLAIN LOGIN")
+                g = srv1.greeting()
+                outs.append(s.connect(b"", [], "user", "pw", starttls=first_tls, server=srv1))
+                reqs.append(msref.req_connect(g, [], "user", "pw", starttls=first_tls, later=list(s.wire.segments)))
+                if between != "nothing":
+                    nseg = len(s.wire.segments)
+                    if between == "failed-op":
+                        srv1.faults = {"LISTSCRIPTS": "BYE"}
+                    o = s.op("logout") if between == "logout" else s.op("listscripts")
+                    reqs.append(msref.req_op("logout" if between == "logout" else "listscripts", later=list(s.wire.segments[nseg:])))
+                    outs.append(o)
+                srv2 = refserver.RefServer(r, starttls=True, sasl=b"PLAIN", post_tls_sasl=b"LOGIN")
+                g = srv2.greeting()
+                out = s.connect(b"", [], "user", "pw", starttls=second_tls, server=srv2)
+                reqs.append(msref.req_connect(g, [], "user", "pw", starttls=second_tls, later=list(s.wire.segments)))
+                outs.append(out)
+                record(reqs, outs)
+                evals += 1
+                nontriv += 1
+                hist = "connect(starttls=%s) → %s → connect(starttls=%s) on one Client" % (first_tls, between, second_tls)
+                for p_ in check_writes(s.wire.writes, second_tls, srv2.authed):
+                    viol.append({"history": hist, "what": "second connection: " + p_})
+                vs = [v for _, v, _ in verbs_written(s.wire.writes)]
+                if second_tls and ("STARTTLS" not in vs or "AUTHENTICATE" not in vs or vs.index("STARTTLS") > vs.index("AUTHENTICATE")):
+                    viol.append({"history": hist, "what": "second connection did not negotiate TLS before authenticating: verbs %r" % vs})
+                if "res=b1" not in out:
+                    viol.append({"history": hist, "what": "second connect should succeed: %s" % out[:80]})
+                if second_tls and getattr(srv2, "auth_attempt", (None,))[0] != "LOGIN":
+                    viol.append({"history": hist, "what": "second connection: mechanism not taken from its own post-TLS capabilities: %r" % (getattr(srv2, "auth_attempt", None),)})
 
     # 3. plaintext injected behind the STARTTLS reply must not be taken as post-TLS capabilities
     G = b'"IMPLEMENTATION" "x"\r\n"SASL" "PLAIN"\r\n"STARTTLS"\r\nOK\r\n'
